@@ -18,8 +18,18 @@ def gen_case(rng):
     nres = 0; nnotes = 0; interp = False
     for _ in range(rng.randrange(3, 14)):
         x = rng.random()
-        if x < 0.45:
+        if x < 0.33:
             n = rng.choice("cdefgab"); src.append(n); sx.append("(note %d)" % SEMI[n]); nnotes += 1
+        elif x < 0.45:
+            # notes that carry their own gate / velocity / timing, lettered and numbered: a pending reservation still consumes one entry per note
+            q = rng.choice([None, None, 50, 100, 70]); v = rng.choice([None, None, 90, 127, 1]); tm = rng.choice([None, None, 3, -2])
+            oi = lambda z: "_" if z is None else str(z)
+            args = "," + ",".join("" if z is None else str(z) for z in (q, v, tm))
+            if rng.random() < 0.5:
+                n = rng.choice("cdefgab"); src.append(n + args); sx.append("(notex %d %s %s %s)" % (SEMI[n], oi(q), oi(v), oi(tm)))
+            else:
+                no = rng.randint(36, 96); src.append("n%d,%s" % (no, args)); sx.append("(noten %d %s %s %s)" % (no, oi(q), oi(v), oi(tm)))
+            nnotes += 1
         elif x < 0.5: src.append("r"); sx.append("(rest)")
         elif x < 0.62:
             k = rng.randrange(0, 5); vals = {0: lambda: rng.randint(1, 127), 1: lambda: rng.randint(1, 100), 2: lambda: rng.randint(0, 10), 3: lambda: rng.randint(1, 8), 4: lambda: rng.choice([12, 24, 48, 96, 30])}[k]
